@@ -131,8 +131,8 @@ pub fn c05(ctx: &Ctx) -> i32 {
         ("env_drains", e.drains, 500),
         ("overlapping_time_stamps", e.tie_like_stamps, 200),
     ]);
-    if inconclusive.is_none() && !eout.inconclusive.is_empty() {
-        inconclusive = Some(format!("{} sessions inconclusive: {}", eout.inconclusive.len(), eout.inconclusive[0]));
+    if inconclusive.is_none() {
+        inconclusive = crate::checks_env::dropped_sessions_verdict(&eout.inconclusive, eout.census.sessions);
     }
     let mut cov = book_coverage(&spec, &out, "All book monitors (reference equality incl. queue order = FIFO among equal time-stamps, views, ledger, lifecycle, modify rule, reachability of every Active order, reloads) judged from the first tie insertion on. Environment part: sessions whose batches exceed the step size (intra-step time-stamps run into the next step and the clock is moved back by `step`), judged by validated replay on a plain real order book plus invariants (views = recomputation from orders, every Active order queued, complete drain at the end).");
     cov["evaluations"] = json!(out.evaluations + e.steps);
@@ -421,7 +421,7 @@ pub fn c12(ctx: &Ctx) -> i32 {
     cov["evaluations"] = json!(out.evaluations + mout.census.sessions + eout.census.sessions + pure);
     cov["pure_accept_reject_cases"] = json!(pure);
     cov["market_part"] = json!({"census": mout.census});
-    cov["environment_part"] = json!({"census": eout.census});
+    cov["environment_part"] = json!({"census": eout.census, "sessions_dropped_as_inconclusive": eout.inconclusive.len()});
     ctx.finish("exploration", cov, valid_history_assumptions(), violations, inconclusive)
 }
 
@@ -445,13 +445,13 @@ pub fn c13(ctx: &Ctx) -> i32 {
         ("env_steps_while_disabled", eout.census.steps_while_disabled, 500),
         ("env_trades_after_reenable", eout.census.trades_after_reenable, 200),
     ]);
-    if inconclusive.is_none() && !eout.inconclusive.is_empty() {
-        inconclusive = Some(format!("{} sessions inconclusive: {}", eout.inconclusive.len(), eout.inconclusive[0]));
+    if inconclusive.is_none() {
+        inconclusive = crate::checks_env::dropped_sessions_verdict(&eout.inconclusive, eout.census.sessions);
     }
     let mut cov = book_coverage(&spec, &out, "Judged: the trade log never grows while the flag is off; market orders placed while off are Rejected with end time = now and touch nothing; limit orders and re-priced orders rest (book may cross); a toggle changes no observable; after re-enabling, arrivals and re-prices match by the usual rules (reference-engine equality of records, trades and queue order on disciplined histories with toggles at arbitrary points). Market part: fan-out of the flag to every asset. Environment part: toggles between steps, no trades / rejected market orders in disabled steps, equivalence with a plain book after re-enabling (validated replay).");
     cov["evaluations"] = json!(out.evaluations + mout.census.sessions + eout.census.steps);
     cov["market_part"] = json!({"census": mout.census});
-    cov["environment_part"] = json!({"census": eout.census});
+    cov["environment_part"] = json!({"census": eout.census, "sessions_dropped_as_inconclusive": eout.inconclusive.len()});
     ctx.finish("exploration", cov, valid_history_assumptions(), violations, inconclusive)
 }
 
@@ -481,8 +481,8 @@ pub fn c14(ctx: &Ctx) -> i32 {
         ("env_steps", eout.census.steps, 5000),
         ("env_multi_asset_sessions", eout.census.multi_asset_sessions, 500),
     ]);
-    if inconclusive.is_none() && !eout.inconclusive.is_empty() {
-        inconclusive = Some(format!("{} sessions inconclusive: {}", eout.inconclusive.len(), eout.inconclusive[0]));
+    if inconclusive.is_none() {
+        inconclusive = crate::checks_env::dropped_sessions_verdict(&eout.inconclusive, eout.census.sessions);
     }
     let mut d = mout.distinct;
     d.merge(eout.distinct);
@@ -494,7 +494,7 @@ pub fn c14(ctx: &Ctx) -> i32 {
         "rule": "cases = market sessions (Market<1|2|3|4 assets> with distinct per-asset ticks; create / create_and_place / place / cancel / modify / process_event / get_order_book_mut / set_time / toggles / reset / snapshot reload, assets interleaved at random) and MarketEnv steps (shuffled batches across assets); after every operation each asset's complete observable snapshot is compared with a stand-alone single-asset book fed that asset's operations at the same times, all per-asset and all-asset queries are compared in asset order, and returned ids must be (asset, per-asset sequence number); distinct = distinct operation logs / (batch shape, schedule) pairs; non-trivial = at least two assets hold the same local ids with different contents and both traded (market part), batches with >= 2 instructions (environment part; a second family of sessions carries more instructions per step than the step size)",
         "samples": samples,
         "market_part": {"census": m},
-        "environment_part": {"census": eout.census, "overfull_sessions": {"steps": overfull_steps, "overfull_batches": overfull_batches}},
+        "environment_part": {"census": eout.census, "sessions_dropped_as_inconclusive": eout.inconclusive.len(), "overfull_sessions": {"steps": overfull_steps, "overfull_batches": overfull_batches}},
     });
     ctx.finish("exploration", cov, env_assumptions(), violations, inconclusive)
 }
